@@ -180,7 +180,7 @@ def expr_dir_b(v, pid, tier, entries, what, families=("mixed", "nested")):
             tag = f"{pid}/fuzz-{fam}-{k}"
             jobs.append(lambda tag=tag, fam=fam, k=k: (tag,) + pipeline.fuzz_replay(
                 tag, ["fuzz-expr", "--family", fam, "--n", str(per[fam]), "--stream", str(k), "--max-operands", str(hi),
-                      "--max-chain", "100"],      # flat -> deep -> flat of longer chains runs into known finding F11 (C06)
+                      "--max-chain", "130" if tier == "quick" else "200"],
                 ["--forward-all", "--entries", ",".join(entries)]))
     res = parallel(jobs)
     ncases = 0
@@ -952,11 +952,11 @@ def c06(a):
             continue
         lcstat["aborted" if outcome == "aborted" else "other"] += 1
         text = f"x0{op if op != 'mix' else '*'}x1{op if op != 'mix' else '-'}...x{nn - 1}"
-        # known finding F11 (open): identified by its call sites - FlatEx::partial and FlatEx::from_deepex(to_deepex()) on a text
-        # whose flat form has more than 64 binary operators (to_deepex nests one level per operator)
-        if outcome == "aborted" and act in ("roundtrip", "partial") and nn > 65 and vlib.finding_open("F11"):
-            v.known_finding("F11", "FlatEx::partial and to_deepex -> from_deepex of an unnested text with more than ~95 / ~140 operands "
-                                   "(e.g. a 100-term sum, 199 tokens) exhaust the 8 MiB main-thread stack: the process aborts")
+        # known finding F11 (open): identified by its call site - FlatEx::partial on a text whose flat form has more than 64
+        # binary operators (to_deepex nests one level per operator).  The conversion half (flat -> deep -> flat) is fixed (F12).
+        if outcome == "aborted" and act == "partial" and nn > 65 and vlib.finding_open("F11"):
+            v.known_finding("F11", "FlatEx::partial of an unnested text with more than ~95 operands (e.g. a 100-term sum, 199 tokens) "
+                                   "exhausts the 8 MiB main-thread stack: the process aborts")
             continue
         v.violation({"longchain": {"ty": ty, "op": op, "act": act, "n": nn, "rc": rc, "outcome": outcome}},
                     f"{what}: `{text}` ({2 * nn - 1} tokens, no nesting) through {act} [{ty}]: {outcome} (rc={rc})")
@@ -1459,7 +1459,7 @@ def replay(a):
         log(f"replay: longchain {c['ty']} n={c['n']} op={c['op']} act={c['act']}: {outcome} (rc={p.returncode})")
         if outcome == "ok":
             return 0
-        if outcome == "aborted" and c["act"] in ("roundtrip", "partial") and c["n"] > 65 and vlib.finding_open("F11"):
+        if outcome == "aborted" and c["act"] == "partial" and c["n"] > 65 and vlib.finding_open("F11"):
             log(f"KNOWN-FINDING: property={pid} F11: stack exhaustion on a long unnested text ({c['act']}, {c['n']} operands)")
             return 0
         log(f"VIOLATION property={pid} replay={a.replay}")
